@@ -141,3 +141,10 @@ def _v25(repo, mod):
     for old, new in (("is_same", "unchanged"), ("minimized_coverages", "after"), ("original_coverages", "before"), ("original_test_suite", "backup"), ("fitness_functions", "coverage_functions")):
         text = text.replace(old, new)
     return replace_node(mod, fn, text)
+
+
+@variant("C22", "assertion-carrying-statements-removable", PP, "C22.protected", "only the bound variable decides whether a statement is kept (the repaired defect)")
+def _v40(repo, mod):
+    fn = repo.func(PP, "BackwardIterativeMinimizationVisitor.visit_default_test_case")
+    s = find_stmt(fn, lambda s: isinstance(s, ast.If) and "protected" in norm(s.test))
+    return replace_node(mod, s.test, "statement.bound_variable in protected")
